@@ -45,7 +45,8 @@ def read_lists():
 FUNCS = read_lists()          # (file, C name, Coq name)
 BUILTINS = {'isspace': 'BIsspace', 'isdigit': 'BIsdigit', 'isalpha': 'BIsalpha', 'isupper': 'BIsupper', 'islower': 'BIslower',
             'isalnum': 'BIsalnum', 'isprint': 'BIsprint', 'tolower': 'BTolower', 'toupper': 'BToupper',
-            'strlen': 'BStrlen', 'strchr': 'BStrchr'}
+            'strlen': 'BStrlen', 'strchr': 'BStrchr', 'strcmp': 'BStrcmp', 'strncmp': 'BStrncmp', 'strrchr': 'BStrrchr',
+            'strcpy': 'BStrcpy'}
 
 
 class Unsupported(Exception):
@@ -709,7 +710,7 @@ class Translator:
             self.globals.append((name, 'repeat (VInt 0) %d' % self.types.cells(t)))
             return 'G_' + name
         t = self.types.parse(qt(vd))
-        cells = []
+        cells = []        # ints, or Coq text of a value (pointer to a literal block)
 
         def flat(n, t):
             k = n['kind']
@@ -731,6 +732,11 @@ class Translator:
                             cells.append(0)
                 else:
                     flat(subs[0], t)
+            elif k == 'StringLiteral':
+                if t[0] == 'ptr':
+                    cells.append('VPtr %s 0' % self.literal(n))
+                else:
+                    raise Unsupported('a char array initialised by a string in global %s' % name)
             elif k in ('ImplicitCastExpr', 'ParenExpr', 'CStyleCastExpr', 'ConstantExpr'):
                 flat(n['inner'][0], t)
             elif k in ('IntegerLiteral', 'CharacterLiteral'):
@@ -746,7 +752,10 @@ class Translator:
                 raise Unsupported('initializer %s of global %s' % (k, name))
         flat(vd['inner'][0], t)
         self.gindex[name] = len(self.globals)
-        self.globals.append((name, 'map VInt [%s]' % '; '.join(Z(c) for c in cells)))
+        if all(isinstance(c, int) for c in cells):
+            self.globals.append((name, 'map VInt [%s]' % '; '.join(Z(c) for c in cells)))
+        else:
+            self.globals.append((name, '[%s]' % '; '.join(('VInt %s' % Z(c)) if isinstance(c, int) else c for c in cells)))
         return 'G_' + name
 
     def run(self):
